@@ -354,7 +354,9 @@ class WT:
             res = ('call', target.qualname, tuple(args), tuple(sorted(kwargs.items()))) + (() if self.noserial else (self.serial,))
             self.calls.append(Call(target, bound or {}, args, kwargs, e, list(self.guards), f, res))
             return res
-        callee = target.dotted if isinstance(target, Ext) else (self.ev(f, fn, env, depth) if not isinstance(fn, ast.Name) else ('global', fn.id))
+        callee = target.dotted if isinstance(target, Ext) else (self.ev(f, fn, env, depth) if not isinstance(fn, ast.Name) else
+                                                                 (env[fn.id] if isinstance(env.get(fn.id), tuple) and env[fn.id] and env[fn.id][0] == 'call'
+                                                                  else ('global', fn.id)))      # a local that holds a callable built by a call (`f = mapper(agg); f(x)`)
         if isinstance(callee, tuple) and callee[0] == 'attr':
             callee = ('method', callee[1], callee[2])
         res = ('call', callee, tuple(args), tuple(sorted(kwargs.items())))
